@@ -6,9 +6,10 @@
 (* which of the denotations is used.                                       *)
 (***************************************************************************)
 EXTENDS Integers, Sequences, FiniteSets, TLC, CastCatalogue
-\* o: [cast, toInt, toFloat, toBool, nanInf, skipTag : BOOLEAN]; skipped: the skip function says yes for this key
+\* o: [cast, toInt, toFloat, toBool, nanInf : BOOLEAN, skipTag : "0" (no function) | "A" | "B" (two different registered functions)];
+\* skipped: the CURRENTLY registered function says yes for this key
 CastKind(c, o, skipped) ==
-  IF o.skipTag /\ skipped THEN "string"
+  IF o.skipTag # "0" /\ skipped THEN "string"
   ELSE IF ~o.cast THEN "string"
   ELSE IF c.naninf /\ ~o.nanInf /\ ~(o.toInt /\ (c.int \/ c.uint)) THEN "string"      \* no spelling of NaN / infinity is cast unless asked
   ELSE IF o.toInt /\ c.int THEN "int64"
